@@ -174,9 +174,12 @@ def r4(ctx):
             tab[k] = r
     for side, flip in (("Buy", "Sell"), ("Sell", "Buy")):
         r = tab.get(side, "")
-        ok = ("exchange: exchange" in r and "instrument: position.instrument" in r and ("side: Side::%s{}" % flip) in r and
-              "quantity: position.quantity_abs" in r and "kind: OrderKind::Market{}" in r and "time_in_force: TimeInForce::ImmediateOrCancel{}" in r
-              and "price: price" in r and "strategy: strategy_id" in r)
+        # exact field values (`in` would also accept e.g. quantity_abs_max)
+        import re as _re
+        flds = dict(_re.findall(r"(\w+): ([^,{}]+(?:\{\})?)", r))
+        ok = (flds.get("exchange") == "exchange" and flds.get("instrument") == "position.instrument" and flds.get("side") == "Side::%s{}" % flip
+              and flds.get("quantity") == "position.quantity_abs" and flds.get("kind") == "OrderKind::Market{}"
+              and flds.get("time_in_force") == "TimeInForce::ImmediateOrCancel{}" and flds.get("price") == "price" and flds.get("strategy") == "strategy_id")
         ctx.check("build_ioc_market_order_to_close_position:" + side, ok,
                   "opposite side, the position's full quantity and instrument, market / immediate-or-cancel", got=r[:400], key="fields")
     # the DefaultStrategy passes state and filter through
